@@ -15,20 +15,22 @@ def body (n : Nat) (salt : Nat) : Bytes := (List.range n).map fun i => UInt8.ofN
 
 /-- the next thing the environment does when everybody keeps going: finish a write, deliver available virgin bytes
 (up to `avail`), end the production, drain the adapted pipe -/
-def tick (avail : Nat) (s : St) : Option Ev :=
+def tick (slowWriter : Bool) (avail : Nat) (s : St) : Option Ev :=
   if s.stopped then none
-  else if s.writerBusy && s.haveConn then some .wrote
+  else if s.writerBusy && s.haveConn && !(slowWriter && s.writing != .headers) then some .wrote
   else if s.put < avail && s.potentialSpace > 0 && !s.prodEnded then some (.produce (avail - s.put))
   else if s.put == s.total && avail == s.total && !s.prodEnded then some .prodEnd
   else if s.outSt == .isOpen && s.outTaken < s.out.length then some (.space (s.out.length - s.outTaken))
   else none
 
-def settle : Nat → Nat → St → St
+def settleW (slow : Bool) : Nat → Nat → St → St
   | 0, _, s => s
   | fuel + 1, avail, s =>
-    match tick avail s with
+    match tick slow avail s with
     | none => s
-    | some e => settle fuel avail (step s e)
+    | some e => settleW slow fuel avail (step s e)
+
+def settle : Nat → Nat → St → St := settleW false
 
 /-- events of the scripted ICAP reply: act, adapted body length, chunk size, cut, end -/
 def replyEvents (act : String) (al ch : Nat) (cut endk : String) (uob : Nat) : List Ev :=
@@ -46,7 +48,13 @@ def replyEvents (act : String) (al ch : Nat) (cut endk : String) (uob : Nat) : L
   else if act == "g" then [.rdBad]
   else if act == "204" then head 204 false false ++ (if cutHead then [] else closing)
   else if act == "100" then [.rdIcap 100 false false false] ++ head 204 false false
-  else if act.startsWith "e" then head ((numAfter act 1).getD 500) false false ++ (if cutHead then [] else closing)
+  else if act.startsWith "e" then
+    let code := (numAfter act 1).getD 500
+    -- One::ResponseParser::ParseResponseStatus accepts 100..599 only: anything else is a malformed head
+    if cutHead then fin else if code < 100 || code > 599 then [.rdBad] else [.rdIcap code false false false] ++ closing
+  else if act == "200x" || act == "206x" then
+    -- a body without an encapsulated HTTP head
+    if cutHead then fin else [.rdIcap (if act == "206x" then 206 else 200) false true false] ++ chunks a ++ [.rdLast none] ++ closing
   else if act == "200n" then
     if cutHead then fin else if cut.startsWith "t" then [.rdIcap 200 true false false] ++ fin
     else [.rdIcap 200 true false false, .rdHttpHead] ++ closing
@@ -66,12 +74,13 @@ def runEvents (fuel avail : Nat) (s : St) : List Ev → St
   | e :: es => runEvents fuel avail (settle fuel avail (step s e)) es
 
 /-- the scenario: virgin bytes up to `pre` are there when the ICAP server acts, the rest follows -/
-def simulate (cfg : Cfg) (vl pre : Nat) (at_ act : String) (al ch : Nat) (cut endk : String) (uob : Nat) : St :=
+def simulate (slow : Bool) (cfg : Cfg) (vl pre : Nat) (at_ act : String) (al ch : Nat) (cut endk : String) (uob : Nat) : St :=
   let fuel := 400
   let s0 := init cfg (body vl 1)
   let early := if at_ == "h" || at_ == "p" then pre else vl
   let s1 := settle fuel early s0                      -- the virgin body usually sits in the pipe before the ICAP connection is up
-  let s2 := settle fuel early (step s1 .connected)
+  -- `slow`: the ICAP server answers while the first body write is still in flight (it does not read the body when it acts at `h`)
+  let s2 := settleW slow fuel early (step s1 .connected)
   -- 100 Continue when the stub wants the rest of the body
   let s3 := if (at_ == "e" || at_.startsWith "c") && s2.writing == .paused && s2.preview.st == .done && s2.parsing == .icapHeader
             then settle fuel vl (step s2 (.rdIcap 100 false false false)) else s2
@@ -92,10 +101,10 @@ def handle (line : String) : String :=
       if pre > vl || (vk == "n" && vl != 0) then "bad-op" else
       let cfg : Cfg := { respmod := m == "rs", bypass := b == "1", previewWanted := if p == "n" then none else p.toNat?,
                          allow206 := u == "1", hasBody := vk == "u" || (vk == "k" && vl > 0), sizeKnown := vk == "k" }
-      let s := simulate cfg vl pre at_ act al ch cut endk uob
-      let o := outcome s
-      -- REQMOD request satisfaction: the adapted message is a response; same classes
-      o.name ++ (if s.bypassed then " bypassed" else "") ++ (if s.consumed > 0 then " consumed" else "")
+      let o := (outcome (simulate false cfg vl pre at_ act al ch cut endk uob)).name
+      -- acting at `h` the stub has not read any body byte: squid may still be in the middle of a body write
+      let o2 := if at_ == "h" then (outcome (simulate true cfg vl pre at_ act al ch cut endk uob)).name else o
+      if o == o2 then o else o ++ "|" ++ o2
     | _, _, _, _, _, _, _, _, _, _, _, _, _, _ => "bad-op"
   | _ => "bad-op"
 
